@@ -572,10 +572,12 @@ class LoggerStand:
                 ci += 1
                 continue
             if rng is not None and p_stutter and rng.random() < p_stutter:
-                for who in ("W", "R"):
-                    if self.is_stutter(who):
-                        self.do({"th": who, "a": "Op"})
-                        break
+                for _ in range(30 if p_stutter > 0.9 else 1):      # > 0.9: a long run of polls that time out
+                    for who in ("R", "W") if p_stutter > 0.9 else ("W", "R"):
+                        if self.is_stutter(who):
+                            self.do({"th": who, "a": "Op"})
+                            break
+                idle = self.sched.slots["R"].state == "idle"      # a call may have returned meanwhile
             opts = self.options(ci < len(script))
             if not opts:
                 break
